@@ -3,6 +3,7 @@ from . import shared as S
 from . import roundtrip as R
 
 META = {
+    'claim_added': 'Also decided: extras are stripped (whole recursion) before construction; enum members by name, string-likes and Paths from the node text; requiredness arithmetic of class_subobjects and its agreement with defaulted_attributes.',
     'level': 'other',
     'technique': 'static: guard/dominance analysis of the admission rules (construct_mapping deep flag, attribute-set '
                  'agreement between introspection and constructor, per-kind accept guards via must-pass-through, key-kind and '
